@@ -833,7 +833,7 @@ def text_accepts(text, starts, start, s, lexer):
 # ------------------------------------------------------------------------------------------------
 def correspond(ctx):
     rng = ctx.rng
-    n_gram = int(os.environ.get('C02_N', 0)) or ctx.scale(260, 2600) * (3 if ctx.widen else 1)
+    n_gram = int(os.environ.get('C02_N', 0)) or ctx.scale(200, 2400) * (3 if ctx.widen else 1)
     acases, ameta = [], []
     dcases, dmeta = [], []
     for gi in range(-len(FIXED), n_gram):
@@ -954,9 +954,13 @@ def correspond(ctx):
     for e in errs:
         ctx.violation('correspondence:coq-eval', {'error': e[-600:], 'no_longer_checks': 'coq evaluation of analysis cases'},
                       False, e[-300:])
+    ndiag = 0
     for i in bad:
         m = ameta[i]
-        stages, _ = ctx.coq_eval('c02a_diag_%d' % i, IMPORTS, 'diag_acase %s' % acases[i])
+        stages = None
+        if ndiag < 3 or m['cyc']:        # one coqc per diagnosis: keep the number small
+            ndiag += 1
+            stages, _ = ctx.coq_eval('c02a_diag_%d' % i, IMPORTS, 'diag_acase %s' % acases[i])
         if m['cyc']:
             # known: lark's digraph aliases sets inside a reads-cycle (see DESIGN, C02); not a failing input of the
             # property unless GrammarError yes/no or the table changes - that is decided by stage numbers 10/11
@@ -974,9 +978,11 @@ def correspond(ctx):
     for e in errs:
         ctx.violation('correspondence:coq-eval', {'error': e[-600:], 'no_longer_checks': 'coq evaluation of driver cases'},
                       False, e[-300:])
-    for i in bad:
+    for k_, i in enumerate(bad):
         m = dmeta[i]
-        diag, _ = ctx.coq_eval('c02d_diag_%d' % i, IMPORTS, 'diag_dcase %s' % dcases[i])
+        diag = None
+        if k_ < 3:
+            diag, _ = ctx.coq_eval('c02d_diag_%d' % i, IMPORTS, 'diag_dcase %s' % dcases[i])
         ctx.violation('correspondence:LR/Driver vs ParserState.feed_token', dict(
             no_longer_checks='driver model on the exported table / table certificate (diag %s)' % diag,
             grammar=m['grammar'], starts=m['starts'], start=m['start'], kind='driver'), False,
